@@ -88,7 +88,7 @@ Theorem C05_cancel_handlers : forall (c : cfg) s, overall c s = OCancel ->
 Proof. exact cancel_handlers. Qed.
 Print Assumptions C05_cancel_handlers.
 
-Theorem C05_finished_means_ran : forall c : cfg, donech c = true -> norepeat c ->
+Theorem C05_finished_means_ran : forall c : cfg, norepeat c ->
   forall s, Reach c s -> dry c = false ->
   forall i, st (nd s i) = NSuccess -> exists fs, outs (nd s i) = true :: fs.
 Proof. exact finished_means_ran. Qed.
@@ -101,9 +101,10 @@ Theorem C05_timeout_no_start : forall (c : cfg) s, timedout s = true -> forall i
 Proof. exact timeout_no_start. Qed.
 Print Assumptions C05_timeout_no_start.
 
-Theorem C05_timeout_cuts : forall (c : cfg) s i, donech c = true -> norepeat c ->
+Theorem C05_timeout_cuts : forall (c : cfg) s i, norepeat c ->
   ph (nd s i) = PEnded false -> st (nd s i) = NRunning -> timedout s = true -> i < nsteps c ->
-  exists s', step c s (WAfter i false) = Some s' /\ st (nd s' i) = NCancel /\ ph (nd s' i) = PGone /\ lasterr s' = true.
+  exists s', step c s (WAfter i false) = Some s' /\ st (nd s' i) = NCancel /\
+             (ph (nd s' i) = PGone \/ ph (nd s' i) = PPost) /\ lasterr s' = true.
 Proof. exact timeout_cuts. Qed.
 Print Assumptions C05_timeout_cuts.
 
